@@ -203,7 +203,7 @@ def c19_event(run, d, cur_writer):
     ok = d.get("outcome") == "ok" and "streams" in d
     ev = {"ev": "c19", "origin": run["id"], "dumpNo": d.get("dump_no", 1), "outcome": d.get("outcome"), "memCount": -1, "expMem": -2, "memOk": False,
           "blamedListed": False, "excCtxRva": -1, "excCtxSize": -1, "blamedCtxRva": -2, "skip": bool(cur_writer.get("skip")),
-          "principalGiven": cur_writer.get("principal") not in (None, "unset"), "principalResolves": False, "nStacks": -1}
+          "principalGiven": cur_writer.get("principal") not in (None, "unset"), "principalResolves": False, "nStacks": -1, "entryOk": True, "userOk": True}
     if not ok:
         return ev
     st = d["streams"]
@@ -225,6 +225,17 @@ def c19_event(run, d, cur_writer):
     ev.update({"memCount": st["memlist"]["count"], "expMem": nstacks + len(cur_writer.get("app_memory", [])) + ipwin, "memOk": mem_ok,
                "blamedListed": bt is not None, "excCtxRva": st["exception"]["ctx_rva"], "excCtxSize": st["exception"]["ctx_size"],
                "blamedCtxRva": bt["ctx_rva"] if bt else -2, "nStacks": nstacks})
+    # options that a fresh writer configured like this one would honour: the caller's entry address (decides which module is
+    # first) and the caller's mappings (listed with their identifiers)
+    mods = st.get("modules", {}).get("modules", [])
+    da = d["writer"].get("direct_auxv") or {}
+    ev["entryOk"] = True
+    if cur_writer.get("direct_auxv") and da.get("entry"):
+        from . import threads as _t2
+        m = _t2.find_map(_t2.parse_maps(d["oracle"]["maps"]), da["entry"])
+        ev["entryOk"] = bool(mods) and m is not None and bool(m["name"]) and os.path.basename(m["name"]) == os.path.basename(mods[0].get("name", ""))
+    um = d["writer"].get("user_mappings") or []
+    ev["userOk"] = (not cur_writer.get("user_mappings")) or all(any(x.get("cv_id") == u["id_hex"] and x["base"] == u["start"] for x in mods) for u in um)
     pa = d["writer"].get("principal")
     if pa is not None and ev["principalGiven"]:
         from . import threads as _t
